@@ -212,5 +212,5 @@ def run(ctx):
         "that the running proxy behaves like the model in wall-clock time is tested with tolerances, not proved",
         "the model is tied to the code by gen/tables g11 (calls on the accepted connection before `go`, order of deadline "
         "calls in readRequest/handleMITM, which proxyproto.Conn methods wait for the header, defaults, wiring) and by the run above",
-        "timing theorems assume Proxy.ReadTimeout = 0 (the default, obligation ob_defaults)",
+        "T15_closed_at_limit / T15_not_before (stated with eff_limit, any phase) assume Proxy.ReadTimeout = 0 (the default, obligation ob_defaults); the *_any_config theorems state the same exactness phase by phase (idle, head, body, listener handshake, MITM hello wait, MITM handshake, PROXY header) without that hypothesis",
     ])
